@@ -33,17 +33,17 @@ CHECKS = {
    text="On the families of C04 the reported (type, span) must be an admissible choice: maximal own length plus longest positive lookahead, ties to the pattern listed first, type and span from one candidate; no scan may panic.",
    note="When one pattern has several lengths of equal extent the statement does not choose; any of them is accepted."),
  "C06": dict(engine="E3 histcheck (hookcheck)", cat="model_checking", ref="§3.3 E3, §4.4, §5 C06",
-   technique="explicit-state BFS to closure over call histories (next / peek_n / set_mode) of the real iterator on every mode graph of a bounded family, in lockstep with a mode model; hybrid with a stateless prefix",
+   technique="explicit-state BFS to closure over call histories (next / peek_n / set_mode, in one family also set_offset / with_offset) of the real iterator on every mode graph of a bounded family, in lockstep with a mode model; hybrid with a stateless prefix",
    text="For every (mode graph, input) pair the space of call histories is searched to closure: each transition calls the real method on a fresh replay of the shortest history, states are deduplicated by the snapshot of the real iterator fields plus the model state, current_mode() and every returned token are compared with the configured transitions. Histories up to a stated length are additionally expanded without deduplication. Plus scripted checks (Scanner::set_mode before find_iter, reuse after a partial iteration, mode_name), one family built through the cache (configurations that differ only in their transitions), lookahead modes that share token types, and rings of 300 / 65 600 modes started at the u8/u16 borders.",
    note="Trusted: the snapshot hook lists every mutable field (the stateless prefix covers fields it might miss). set_mode to a missing mode is unspecified and never generated."),
  "C07": dict(engine="E2 scancheck + stateless history enumeration (pubcheck)", cat="exploration", ref="§5 C07",
-   technique="bounded-exhaustive enumeration: safety invariants on every scan of the C04/C05 families, on a nullable-pattern/nullable-lookahead/zero-pattern family over 1-4 byte characters from every offset, and along every call history up to depth D (next / peek_n / advance_to / set_offset / set_mode) followed by a drain",
+   technique="bounded-exhaustive enumeration: safety invariants on every scan of the C04/C05 families, on a nullable-pattern/nullable-lookahead/zero-pattern family over 1-4 byte characters from every offset, and along every call history up to depth D (next / peek_n(2) / peek_n(usize::MAX) / advance_to / set_offset / set_mode, position queries after every call) followed by a drain through WithPositions; a process killed by a signal (abort, stack overflow) twice in a row is a verdict as well",
    text="Non-empty in-bounds spans on character boundaries, monotone starts, at most one token per character since the last reset, sticky None, no panic (debug assertions on) - evaluated on every element of the stated finite spaces.",
    note="After a backward set_offset the monotonicity and token budget restart at the reset position."),
  "C08": dict(engine="E4 enumcheck (pubcheck)", cat="exploration", ref="§4.2, §5 C08",
    technique="exhaustive enumeration of all 1,112,064 scalar values per class expression of a bounded grammar, through the public API, against the set algebra over opaque atom tables",
-   text="Each class expression (unions, negations at every level, &&, --, ~~, nested brackets, every named class scnr documents in several contexts, all classes of the corpora, pairs of classes in one scanner) is compiled as a scanner and decided on every scalar value; the oracle is the boolean algebra of its items computed word-wise and cross-checked pointwise.",
-   note="An unescaped `.` as a class item is the dot set (intended behaviour, README relies on it). Named atoms are opaque (their set is what the atom denotes alone); only the ASCII anchors of \\d \\s \\w from the statement are asserted."),
+   text="Each class expression (unions, negations at every level, &&, --, ~~, nested brackets, every named class scnr documents in several contexts, all classes of the corpora, pairs of classes in one scanner, up to 300 classes in one scanner) is compiled as a scanner and decided on every scalar value; the oracle is the boolean algebra of its items computed word-wise and cross-checked pointwise.",
+   note="An unescaped `.` as a class item is the dot set (intended behaviour, README relies on it). Named atoms are opaque inside the algebra (their set is what the atom denotes alone); their tables are anchored separately: the ASCII anchors of \\d \\s \\w from the statement, every documented binary property against regex-syntax's table of that property, \\w / [[:word:]] / \\d / \\s between bounds on which scnr's documentation and UTS #18 agree (scalars assigned in the independent tables' Unicode version, 64 scalars tolerance)."),
  "C09": dict(engine="E3 histcheck (hookcheck)", cat="model_checking", ref="§3.3 E3, §4.4, §5 C09",
    technique="explicit-state BFS to closure over histories (next / set_offset to scanned offsets / set_mode / peek / advance_to / exhaustion) of WithPositions<FindMatches> and bare FindMatches, true line/column oracle on every state",
    text="In every reachable state position(o) is compared for every boundary inside the contiguously scanned prefix, and every delivered MatchExt start/end position is compared with the true line/column (line-break leniency for end positions as the statement allows).",
@@ -62,14 +62,14 @@ CHECKS = {
    note="Single-threaded interleaving (concurrency is C14). The interleaving and peek parts are differential; the history-independence part uses the reference scanner."),
  "C13": dict(engine="E5 cachecheck (hookcheck)", cat="model_checking", ref="§5 C13",
    technique="explicit-state BFS over cache states (sets of built members of a family of equal/near-identical/unrelated/failing configurations); every build() compared with build_uncached() by dump, mode names and token streams",
-   text="From every cache state (reached by clear + builds) every member is built through the cache (twice) and compared with its uncached build by mode names, token streams, modes after every token and peek results; every failing member is built after clear / after any one good member and followed by a build of every member; one long history without clear (1 100 distinct configurations, thorough 70 000, with re-builds of early ones at every power of two) covers capacity-dependent behaviour.",
+   text="From every cache state (reached by clear + builds) every member is built through the cache (twice) and compared with its uncached build by mode names, token streams from every start mode, modes after every token and peek results; every failing member is built after clear / after any one good member and followed by a build of every member; one long history without clear (1 100 distinct configurations, thorough 70 000, with re-builds of early ones at every power of two) covers capacity-dependent behaviour.",
    note="The cache_clear/cache_keys hooks only make cache states reachable and observable in one process. Single-threaded."),
  "C14": dict(engine="E6 loomcheck", cat="model_checking", ref="§3.2 H5, §5 C14",
    technique="loom (DPOR, all schedules, no preemption bound) over the real build()/Scanner::try_from/find_iter/peek_n code through a std-shadowing facade whose locks make try_lock failures and writer-preferring RwLock blocking reachable; Send+Sync by compile probe",
    text="For each of ~210 small thread harness bodies (2 threads x 1-2 ops, 3 threads x 1 op: builds of equal/near-identical/failing configurations through both builders and Scanner::try_from, scans and peeks on two shared Arc<Scanner>, one of them with lookaheads checked alternately within a token, caches pre-filled around typical capacity bounds) loom explores every schedule; every thread must observe the sequential results, no deadlock or panic. `Scanner: Send + Sync` is a type-system fact decided by a compile probe.",
-   note="Scheduling points exist only where the code synchronises through std::sync / std::thread (routed to loom); std's Arc reference counts are not scheduling points; unsynchronised accesses through unsafe are invisible to loom. The facade's Mutex adds a probe cell so that try_lock can fail, its RwLock is built on loom's Mutex+Condvar and prefers writers (std documents that a waiting writer may block readers). A free-running stress pass on OS threads is supporting evidence only."),
+   note="Scheduling points exist only where the code synchronises through std::sync / std::thread (routed to loom); std's Arc reference counts are not scheduling points; unsynchronised accesses through unsafe are invisible to loom. The facade's Mutex adds a probe cell so that try_lock can fail, its RwLock is built on loom's Mutex+Condvar and prefers writers (std documents that a waiting writer may block readers). A free-running stress pass on OS threads (sampling, supporting evidence) runs first; when it already shows a wrong result the loom part is skipped and the violation is reported from it."),
  "C15": dict(engine="E4 enumcheck (pubcheck)", cat="exploration", ref="§5 C15",
-   technique="exhaustive enumeration of every token string up to length L over a 30-token regex alphabet, structured planting of constructs in every context x slot, long multi-byte patterns, twin spellings of one Unicode property, border ranges, Unicode class names outside the documented list, and the same through the cache; classification oracle from the AST",
+   technique="exhaustive enumeration of every token string up to length L over a 30-token regex alphabet, structured planting of constructs in every context x slot, long multi-byte patterns, twin spellings of one Unicode property, border ranges, Unicode class names outside the documented list, nesting depths 50..20 000 of five shapes built in child processes on 2 MiB threads (optimised and dev-profile builds), and the same through the cache; classification oracle from the AST",
    text="Every element of the stated finite spaces is handed to build()/build_uncached() inside catch_unwind with debug assertions on: syntax errors and unsupported constructs anywhere must give Err, the supported fragment must build, nothing may panic.",
    note="In the token-string and planting families a named Unicode class is unsupported iff it does not build when used alone (fixed anchors from the statement are asserted); this circular part is closed by family (g): names outside scnr's documented list must be rejected if Unicode does not know them, and must denote their own property (compared with regex-syntax's Unicode tables over all scalars) if they build. Repetition counts stay small."),
  "C16": dict(engine="E4 enumcheck (pubcheck)", cat="exploration", ref="§5 C16",
